@@ -388,6 +388,31 @@ def LangS.traced : LangS (σ × List E) E F V where
 
 end armS
 
+/-! ### assigning a precedence (eval.rs `set_index`, 'precedence' arm; `Expr::OpAssign`) -/
+
+/-- the 'precedence' arm of `set_index` on `Obj::Func(_, Precedence(p, _))`: `Some(number)` stores
+the number (the associativity stays); `None` — the LHS-DROPPING step of an op-assignment — is
+`Ok(())`: a precedence is a plain `f64`, there is nothing to drop, the slot keeps its value -/
+def setPrecedence (pr : Precedence) : Option Prec → Precedence
+  | some p => ⟨p, pr.a⟩
+  | none => pr
+
+/-- `f::precedence op= rhs` (the non-`every` hot path of `Expr::OpAssign`): read the old value,
+drop the slot, run the operator function, store its result.  `combine old during` stands for
+`op.run2(old, rhs)` followed by the number check of the store — `ok (some p)`: a number, `ok none`:
+not a number (the store raises a type error), `throw`/`panic`: the operator function failed;
+`during` is the precedence the slot holds WHILE the operator function runs (a chain it evaluates
+groups by that).  Returns the outcome and the precedence afterwards. -/
+def precedenceOpAssign (pr : Precedence) (combine : Prec → Precedence → Out (Option Prec)) :
+    Out Unit × Precedence :=
+  let old := pr.p
+  let dropped := setPrecedence pr none
+  match combine old dropped with
+  | .ok (some p) => (.ok (), setPrecedence dropped (some p))
+  | .ok none => (.throw, dropped)
+  | .throw => (.throw, dropped)
+  | .panic => (.panic, dropped)
+
 /-! ### `default_precedence` (core.rs ~4670) -/
 
 def DEFAULT_PRECEDENCE : Int := 0
